@@ -388,7 +388,8 @@ def run(ctx):
         params = [a.arg for a in init.args.args[1:] + init.args.kwonlyargs]
         p2f = F.init_param_to_field(repo, ci)
         for p in params:
-            own = {f for f in p2f.get(p, set()) if f in stored}
+            # fields the option ends up in - stored here or by a base class the option is forwarded to
+            own = {f for f in p2f.get(p, set()) if '.' not in f}
             if not own:
                 continue
             readers = set()
